@@ -269,10 +269,13 @@ impl ConstantFoldingRule {
                 }
                 BinaryOperator::Eq => {
                     if let (Expr::Literal(l), Expr::Literal(r)) = (*left, *right) {
-                        Some(if literals_equal(l, r) {
-                            FoldedPredicate::AlwaysTrue
-                        } else {
-                            FoldedPredicate::AlwaysFalse
+                        // None: UNKNOWN (NULL operand) or not decidable here; left to the evaluator
+                        literals_equal(l, r).map(|eq| {
+                            if eq {
+                                FoldedPredicate::AlwaysTrue
+                            } else {
+                                FoldedPredicate::AlwaysFalse
+                            }
                         })
                     } else {
                         None
@@ -280,13 +283,12 @@ impl ConstantFoldingRule {
                 }
                 BinaryOperator::NotEq => {
                     if let (Expr::Literal(l), Expr::Literal(r)) = (*left, *right) {
-                        // a comparison with NULL is UNKNOWN, which a filter treats like FALSE
-                        Some(if matches!(l, Literal::Null) || matches!(r, Literal::Null) {
-                            FoldedPredicate::AlwaysFalse
-                        } else if literals_equal(l, r) {
-                            FoldedPredicate::AlwaysFalse
-                        } else {
-                            FoldedPredicate::AlwaysTrue
+                        literals_equal(l, r).map(|eq| {
+                            if eq {
+                                FoldedPredicate::AlwaysFalse
+                            } else {
+                                FoldedPredicate::AlwaysTrue
+                            }
                         })
                     } else {
                         None
@@ -315,15 +317,24 @@ enum FoldedPredicate<'a> {
     Simplified(crate::sql::ast::Expr<'a>),
 }
 
-fn literals_equal(l: &crate::sql::ast::Literal, r: &crate::sql::ast::Literal) -> bool {
+/// Some(equal?) when two literals can be compared at plan time; None when the comparison is
+/// UNKNOWN (a NULL operand: neither `=` nor `<>` nor their negation is TRUE) or involves
+/// kinds this rule does not evaluate.
+fn literals_equal(l: &crate::sql::ast::Literal, r: &crate::sql::ast::Literal) -> Option<bool> {
     use crate::sql::ast::Literal;
     match (l, r) {
-        (Literal::Null, _) | (_, Literal::Null) => false,
-        (Literal::Boolean(a), Literal::Boolean(b)) => a == b,
-        (Literal::Integer(a), Literal::Integer(b)) => a == b,
-        (Literal::Float(a), Literal::Float(b)) => a == b,
-        (Literal::String(a), Literal::String(b)) => a == b,
-        _ => false,
+        (Literal::Null, _) | (_, Literal::Null) => None,
+        (Literal::Boolean(a), Literal::Boolean(b)) => Some(a == b),
+        (Literal::Integer(a), Literal::Integer(b)) => {
+            Some(a.parse::<i64>().ok()? == b.parse::<i64>().ok()?)
+        }
+        (Literal::Float(a), Literal::Float(b))
+        | (Literal::Integer(a), Literal::Float(b))
+        | (Literal::Float(a), Literal::Integer(b)) => {
+            Some(a.parse::<f64>().ok()? == b.parse::<f64>().ok()?)
+        }
+        (Literal::String(a), Literal::String(b)) => Some(a == b),
+        _ => None,
     }
 }
 
